@@ -44,6 +44,7 @@ class C01Machine(Machine):
         "nested_match", "synonym_nested_in_other_record", "empty_uri_prefix_registered",
         "probe_equals_prefix", "probe_one_short", "split_delivery", "dup_rejected",
         "confluence_group", "chain_parts", "multi_char_delimiter", "non_bmp_probe_matched",
+        "piece_carrier_canonical", "piece_carrier_synonym", "piece_carrier_via_uri",
     ]
 
     @classmethod
@@ -122,7 +123,13 @@ class C01Machine(Machine):
                 head = dict(r, uri_prefix_synonyms=[])
                 steps.append({"op": kind, "record": head, "schedule": k})
                 for u in r["uri_prefix_synonyms"]:
+                    carrier = rng.choice(["canonical", "canonical", "synonym", "via_uri"])
+                    if carrier == "synonym" and not r["prefix_synonyms"]:
+                        carrier = "canonical"
                     later.append({"op": "merge_piece", "prefix": r["prefix"], "uri_prefix": u, "schedule": k,
+                                  "carrier": carrier,
+                                  "carrier_prefix": r["prefix_synonyms"][0] if carrier == "synonym" else None,
+                                  "anchor_uri": r["uri_prefix"],
                                   "via": "add_prefix" if rng.random() < 0.5 else "add_record"})
             else:
                 steps.append({"op": kind, "record": r, "schedule": k})
@@ -247,11 +254,21 @@ class C01Machine(Machine):
                     # its head was removed by minimisation: nothing to merge into
                     self.event("merge_piece_skipped")
                     return {"skipped": True}
-                # a piece carrying the canonical CURIE prefix and one more URI prefix
-                if op["via"] == "add_record":
-                    conv.add_record(Record(prefix=op["prefix"], uri_prefix=op["uri_prefix"]), merge=True)
+                # a piece carrying one more URI prefix for an already delivered record; it finds its
+                # record through the canonical CURIE prefix, through a CURIE-prefix synonym, or only
+                # through the record's canonical URI prefix (then under a CURIE prefix of its own)
+                carrier = op.get("carrier", "canonical")
+                if carrier == "synonym" and op.get("carrier_prefix") is not None:
+                    pr, up, ups = op["carrier_prefix"], op["uri_prefix"], []
+                elif carrier == "via_uri" and op.get("anchor_uri") in self.owners.owners:
+                    pr, up, ups = "piece" + str(self.steps), op["anchor_uri"], [op["uri_prefix"]]
                 else:
-                    conv.add_prefix(op["prefix"], op["uri_prefix"], merge=True)
+                    pr, up, ups = op["prefix"], op["uri_prefix"], []
+                self.probe("piece_carrier_" + carrier)
+                if op["via"] == "add_record":
+                    conv.add_record(Record(prefix=pr, uri_prefix=up, uri_prefix_synonyms=ups), merge=True)
+                else:
+                    conv.add_prefix(pr, up, uri_prefix_synonyms=ups, merge=True)
                 self.owners.register(op["uri_prefix"], op["prefix"])
                 self.probe("split_delivery")
                 self.event("merge_piece")
